@@ -19,7 +19,7 @@ def main():
     os.makedirs(scratch, exist_ok=True)
     vcopy, wt = os.path.join(scratch, "verif"), os.path.join(scratch, "repo")
     if not os.path.isdir(vcopy):
-        sh(f"cp -r {ROOT} {vcopy}")
+        sh(f"cp -r {ROOT} {vcopy} && rm -rf {vcopy}/.build")
     if not os.path.isdir(wt):
         r = sh(f"git -C /repo worktree add --detach {wt} HEAD")
         assert r.returncode == 0, r.stdout
